@@ -137,7 +137,8 @@ def r156(ctx, fx):
         return any(True for b in bodies if b.d.get("hir") for x, p in lib.hir_calls(b.hir["body"]) if p and lib.pm(p, sfx))
     checks = [
         ("generated-symbols", calls_any("SymbolTable::children") and any(
-            n.get("k") == "binary" and n.get("op") in ("Eq", "Ne") and "as_str" in repr(lib.hdesc(n)) for b in bodies if b.d.get("hir") for n in lib.hwalk(b.hir["body"])),
+            n.get("k") == "binary" and n.get("op") in ("Eq", "Ne") and "as_str" in repr(lib.hdesc(n)) and "location" in repr(lib.hdesc(n))
+            for b in bodies if b.d.get("hir") for n in lib.hwalk(b.hir["body"])),
          "the rename handler does not compare the text at the definition with the symbol's name: renaming the `index` of a loop or the `-`/`+` of a block rewrites the "
          "loop count / the brace"),
         ("super", calls_any("Identifier::is_super"),
